@@ -7,6 +7,12 @@ for f in glob.glob('/tmp/mxout/confirm*.log') + glob.glob('/verif/seeded/confirm
     for l in open(f):
         m = re.match(r'((?:R\d)?C\d\d[AB]): (.*)', l.strip())
         if m: conf[m.group(1)] = m.group(2)
+for f in glob.glob('/verif/seeded/confirm17*.log'):
+    cur = None
+    for l in open(f):
+        m = re.match(r'((?:R\d)?C17[AB]) suite failing lines: (\d+)', l.strip())
+        if m: cur = m.group(1); conf[cur] = f'suite failing lines: {m.group(2)}'
+        elif cur and l.startswith('  '): conf[cur] += ' | ' + re.sub(r'; 0 ignored.*', '', l.strip())
 matrix = {}
 for f in sorted(glob.glob('/tmp/mxout/m*.json')) + sorted(glob.glob('/verif/seeded/matrix*.json')):
     try:
